@@ -121,7 +121,8 @@ class _DSAKey(SSHKey):
             return None
 
         if (isinstance(alg_params, tuple) and len(alg_params) == 3 and
-                all_ints(alg_params) and isinstance(x, int)):
+                all_ints(alg_params) and isinstance(x, int) and
+                cast(int, alg_params[0]) > 0 and x >= 0):
             p, q, g = alg_params
             y: int = pow(g, x, p)
             return p, q, g, y, x
